@@ -258,7 +258,7 @@ func c18MiscCases(rng *rand.Rand) []c18Case {
 
 func checkC18(r *verdict.Run) {
 	r.Rule = "bitmap commands vs a bit-array model: BITFIELD/BITFIELD_RO GET/SET/INCRBY for every type i1..i64/u1..u63 x bit offsets 0-8,13,16 x boundary values x OVERFLOW modes x 3 base strings; BITCOUNT/BITPOS for all (start,end) in [-L*u-2, L*u+2]^2 in default/BYTE/BIT units over strings of length <= 3 and the missing key; " +
-		"SETBIT/GETBIT at offsets 0..40 and extremes; BITOP over 1-4 operands incl. missing, wrong-typed and destination among sources; random multi-operation BITFIELD. After every command the string is re-read (writes touch only the addressed bits, reads change nothing). " +
+		"SETBIT/GETBIT at offsets 0..40 and extremes; BITOP over 1-4 operands incl. missing, wrong-typed and destination among sources; random multi-operation BITFIELD; random sequences over five keys mixing in-place and extending bit writes, BITOP with 1-3 sources, COPY/RENAME/SET/APPEND/SETRANGE/GETSET/MSET and the reads, every key re-read after every step (a write must not reach a key it does not address). After every command the string is re-read (writes touch only the addressed bits, reads change nothing). " +
 		"quick runs a seeded 1/8 slice of the two big tables, thorough all of it. distinct = (table, command+options, outcome class)"
 	of := 8
 	if r.Tier == "thorough" {
@@ -281,6 +281,8 @@ func checkC18(r *verdict.Run) {
 	}
 	nsh := 16
 	universe := []string{"b0", "b1", "b2", "b3", "bd"}
+	defer runDiffSequencesN(r, tierPick(r, 200, 4000), 25, 20000, func(rng *rand.Rand) int { return 40 + rng.Intn(60) }, universe,
+		[][]string{{"SET", "b0", "\xa5\x5a\x0f"}, {"SET", "b1", "\xff\x00"}, {"SET", "b2", "hello world"}}, c18SeqGen)
 	parallel(nsh, 16, func(shard int) {
 		c, err := startChild(false)
 		if err != nil {
@@ -334,6 +336,73 @@ func checkC18(r *verdict.Run) {
 			d.close()
 		}
 	})
+}
+
+// c18SeqGen: sequences over five keys in which bitmap writes (in place or extending), BITOP with one to three
+// sources, COPY/RENAME/SET/APPEND/SETRANGE/GETSET and the bitmap reads alternate. Every key is re-read after every
+// step, so a write that reaches a key it does not address (two keys sharing storage after BITOP/COPY/GETRANGE, a
+// stale buffer) shows as a change of the other key.
+func c18SeqGen(rng *rand.Rand, m *model.Model, keys []string) []string {
+	k := pick(rng, keys)
+	k2 := pick(rng, keys)
+	n := modelLen(m, 0, k) // length of the string in bytes (0 when missing)
+	inBits := func() string {
+		if n == 0 || rng.Intn(5) == 0 {
+			return strconv.Itoa(rng.Intn(n*8 + 24)) // may extend
+		}
+		return strconv.Itoa(rng.Intn(n * 8)) // stays inside the current length
+	}
+	switch x := rng.Intn(40); {
+	case x < 7:
+		return []string{"SETBIT", k, inBits(), strconv.Itoa(rng.Intn(2))}
+	case x < 11:
+		bits := 1 + rng.Intn(16)
+		return []string{"BITFIELD", k, "SET", "u" + strconv.Itoa(bits), inBits(), strconv.Itoa(rng.Intn(1 << uint(bits)))}
+	case x < 14:
+		return []string{"BITFIELD", k, "OVERFLOW", pick(rng, []string{"WRAP", "SAT", "FAIL"}), "INCRBY", "i8", inBits(), strconv.Itoa(rng.Intn(300) - 150)}
+	case x < 20:
+		op := pick(rng, []string{"AND", "OR", "XOR", "NOT"})
+		a := []string{"BITOP", op, k}
+		ns := 1
+		if op != "NOT" && rng.Intn(2) == 0 {
+			ns = 2 + rng.Intn(2)
+		}
+		for i := 0; i < ns; i++ {
+			a = append(a, pick(rng, keys))
+		}
+		return a
+	case x < 23:
+		b := make([]byte, 1+rng.Intn(6))
+		for i := range b {
+			b[i] = byte(rng.Intn(256))
+		}
+		return []string{"SET", k, string(b)}
+	case x < 25:
+		return []string{"COPY", k, k2, "REPLACE"}
+	case x < 26:
+		return []string{"RENAME", k, k2}
+	case x < 27:
+		return []string{"APPEND", k, pick(rng, []string{"\x00", "\xff", "ab"})}
+	case x < 29:
+		return []string{"SETRANGE", k, strconv.Itoa(rng.Intn(n + 2)), pick(rng, []string{"\x0f", "Z", "\xf0\x0f"})}
+	case x < 30:
+		return []string{"GETSET", k, "\xaa\x55"}
+	case x < 31:
+		return []string{"GETRANGE", k, "0", "-1"}
+	case x < 32:
+		return []string{"MSET", k, "\x81", k2, "\x18\x18"}
+	case x < 34:
+		return []string{"GETBIT", k, inBits()}
+	case x < 36:
+		return []string{"BITCOUNT", k}
+	case x < 37:
+		return []string{"BITPOS", k, strconv.Itoa(rng.Intn(2))}
+	case x < 38:
+		return []string{"BITFIELD_RO", k, "GET", "u8", inBits()}
+	case x < 39:
+		return []string{"DEL", k}
+	}
+	return []string{"GET", k}
 }
 
 func quoteCmds(cmds [][]string) []string {
